@@ -70,7 +70,9 @@ def run(tier, seed, repo):
             "the outermost scope of that step ends (before the lock is released)",
             "BOUNDED, not proved: the interleaving scenarios (random schedules of 2-4 concurrently resolving steps "
             "with cancellations and a failing factory on the real classes) are a bounded native cross-check of this "
-            "composition, not a proof",
+            "composition, not a proof; three sequential cases run with them (a genuine cycle closed through fresh "
+            "descriptor objects is reported as a cycle; cached resources are per manager, also as dependencies, when "
+            "descriptors are shared by several managers; a failed nested factory followed by the same graph again)",
             "a factory that starts ANOTHER task which resolves through the same manager and waits for it is outside "
             "the contract (it would wait for its own lock); user-written ResourceDescriptor classes are assumed to "
             "keep the resolution guarantee (specs/resource.py: DescriptorResolve)",
